@@ -17,7 +17,7 @@
    and the counters of application callbacks (handler calls per application kind, filter set-up calls, on_error and
    on_end_of_content notifications). *)
 From Coq Require Import NArith ZArith List Bool.
-From CppcmsV Require Import Base.CSem.
+From CppcmsV Require Import Base.CSem C02.SMapDefs.
 Import ListNotations.
 Local Open Scope Z_scope.
 
@@ -412,10 +412,13 @@ Fixpoint scgi_env (fuel : nat) (buf : list N) (p back : Z) (acc : list (list N *
         end
       else Some acc
   end.
-Fixpoint env_get (e : list (list N * list N)) (k : list N) : option (list N) :=
-  match e with
-  | (n, v) :: t => if beq_bytes n k then Some v else env_get t k
-  | [] => None
+(* connection::env_ is a string_map (private/string_map.h, modelled in SMapDefs.v): the variables of the request are add()ed in
+   order to a cleared table, cgetenv() is get_safe().  For fewer than 33 variables this is the first pair with that name; beyond
+   that every growth of the table reverses the order in which duplicates of a name are met (SMapProofs.v: smap_get_spec). *)
+Definition env_get (e : list (list N * list N)) (k : list N) : option (list N) :=
+  match smap_get (env_map e) k with
+  | GFound v => Some v
+  | _ => None
   end.
 Definition env_safe (e : list (list N * list N)) (k : list N) : list N :=
   match env_get e k with Some v => v | None => [] end.
